@@ -6,7 +6,8 @@ Model of poly's feature locations (property C02):
   poly.Location                          ↦ `PLoc`
   poly.getFeatureSequence / GetSequence  ↦ `getSeq`
   genbank.parseLocation                  ↦ `parseLocation`   (as it is after the fix: commits 38778ae "single base",
-                                            90c4195 "top-level commas", ec3cbb7 "complement of complement")
+                                            90c4195 "top-level commas", ec3cbb7 "complement of complement",
+                                            1650bb9 "no panic on forms it does not model")
   genbank.BuildLocationString            ↦ `buildLoc`
 
 Transcribed statement by statement.  Go `int` is modelled as the unbounded `Int` (coordinates
@@ -162,13 +163,13 @@ def mapOutcome {α β : Type} (f : α → Outcome β) : List α → Outcome (Lis
   | x :: xs => (f x).bind fun y => (mapOutcome f xs).bind fun ys => .ok (y :: ys)
 
 /-- the tail of `parseLocation`, after the `if/else`: flags from the WHOLE string, then the
-"excess root node" trim -/
+"excess root node" trim (only when there is a sublocation to trim to) -/
 def finish (s : Str) (loc : PLoc) : Outcome PLoc :=
   let loc := if hasChar '<' s then { loc with five := true } else loc
   let loc := if hasChar '>' s then { loc with three := true } else loc
   if loc.start = 0 ∧ loc.stop = 0 ∧ loc.join = false ∧ loc.complement = false then
     match loc.subs with
-    | [] => .panic                      -- location.SubLocations[0]: index out of range
+    | [] => .ok loc                     -- `&& len(location.SubLocations) > 0` (since 1650bb9)
     | x :: _ => .ok x
   else .ok loc
 
@@ -185,11 +186,11 @@ def parseLocF : Nat → Str → Outcome PLoc
       else
         let startEndSplit := splitDots s
         match startEndSplit.2 with
-        | [] => .panic                  -- startEndSplit[1]: index out of range
-        | p1 :: _ =>
+        | [p1] =>                       -- `if len(startEndSplit) == 2`
           let start := atoi (stripMarks startEndSplit.1)
           let stop := atoi (stripMarks p1)
           finish s { start := start - 1, stop := stop }
+        | _ => finish s {}              -- e.g. 102.110: kept as text only, the structure stays zero
     else
       let firstOuterParentheses := optIdx (indexOf '(' s)
       (slice s (firstOuterParentheses + 1) (optIdx (lastIndexOf ')' s))).bind fun expression =>
